@@ -29,6 +29,7 @@ type trackedMem struct {
 type allocViolation struct {
 	Step   int    `json:"step"`
 	How    string `json:"how"`
+	Kind   string `json:"kind"`
 	Detail string `json:"detail"`
 }
 
@@ -55,20 +56,50 @@ func (m *trackedMem) Free() {
 	defer a.mu.Unlock()
 	e := a.e
 	if e.tearing || m.def < 0 || e.closing[m.def] || e.instantiating == m.def {
-		// the defining instance is being closed (or never came to life): a legitimate release
+		// the defining instance is being closed (or never came to life)
 		if !m.freed {
 			m.freed = true
-			for i := range m.buf {
-				m.buf[i] = 0xdb
-			}
 			e.out.Counters["allocator_frees_by_defining_instance"]++
+			if !e.tearing && m.def >= 0 {
+				// ... but is the memory still imported by an instance that stays open?
+				for id, open := range e.live {
+					if open && !e.closing[id] && id != m.def && e.importsMemoryOf(id, m.def) {
+						how := e.curKind
+						if e.inCall {
+							how += "-in-host-function"
+						}
+						e.out.AllocViol = append(e.out.AllocViol, allocViolation{Step: e.step, How: how, Kind: "owner-closed-while-memory-imported-by-live-instance",
+							Detail: fmt.Sprintf("step %d (%s): LinearMemory.Free() on memory #%d when its defining instance #%d is closed, while instance #%d, which imports that memory, is still open", e.step, how, m.id, m.def, id)})
+						break
+					}
+				}
+			}
 		}
 		return
 	}
 	how := e.curKind
+	if how == "inst" || how == "concinst" {
+		how = "instantiation-of-importer"
+	}
 	if e.inCall {
 		how += "-in-host-function"
 	}
-	e.out.AllocViol = append(e.out.AllocViol, allocViolation{Step: e.step, How: how,
+	e.out.AllocViol = append(e.out.AllocViol, allocViolation{Step: e.step, How: how, Kind: "defining-instance-live",
 		Detail: fmt.Sprintf("step %d (%s): LinearMemory.Free() called on memory #%d allocated by the instantiation of instance #%d, which is still open", e.step, how, m.id, m.def)})
+}
+
+// importsMemoryOf: does instance id import (possibly through re-exporters) the memory defined by instance def?
+func (e *executor) importsMemoryOf(id, def int) bool {
+	slot, ok := e.instSlot[id]
+	if !ok || e.instRT[id] != e.instRT[def] {
+		return false
+	}
+	ms := e.h.Mods[slot].ImpMem
+	if ms < 0 {
+		return false
+	}
+	for e.h.Mods[ms].ImpMem >= 0 {
+		ms = e.h.Mods[ms].ImpMem
+	}
+	return e.namedInst[e.instRT[def]][ms] == def
 }
